@@ -17,7 +17,10 @@ ASSUMPTIONS = ["arg-max ties are outside the statement (torch and numpy break th
 CHARS = list("abcdefgh")
 # character tables as models of other scripts carry them: zero-width space / joiners, a space, a combining mark
 TABLES = [CHARS, CHARS, ["a", "\u200b", "b", "\u200c", " ", "c", "\u0301", "d"],
-          ["\u1780", "\u1781", "\u17d2", "\u200b", "\u1782", " ", "\u200d", "\u0644"]]
+          ["\u1780", "\u1781", "\u17d2", "\u200b", "\u1782", " ", "\u200d", "\u0644"],
+          # decomposed text: base letters and the combining marks that follow them are separate classes (the pairs have
+          # precomposed forms, and \u212b / \u00c5 are canonically equivalent single characters)
+          ["e", "\u0301", "a", "\u0308", "\u212b", "o", "\u030a", "n"]]
 
 
 def table_for(seed):
